@@ -83,6 +83,7 @@ type gen struct {
 	nType      int
 	features   map[string]bool
 	opid       int
+	opFamily   int // 0 undecided, 1 operation ids that are equal up to letter case and numeric suffixes, 2 plain
 	paths      map[string]bool
 	files      map[string][]*node // path -> nodes
 	order      []string
@@ -416,10 +417,23 @@ func (g *gen) method(verb, p string, grouped bool) *node {
 		}
 		nd.kids = append(nd.kids, &node{head: t})
 	}
-	if g.r.Chance(1, 4) {
+	if g.r.Chance(1, 4) || g.opFamily == 1 {
 		g.opid++
 		g.feat("operationId")
-		nd.kids = append(nd.kids, &node{head: fmt.Sprintf("OperationId op%d", g.opid)})
+		if g.opFamily == 0 {
+			g.opFamily = 2
+			if g.r.Chance(1, 3) {
+				g.opFamily = 1
+			}
+		}
+		id := fmt.Sprintf("op%d", g.opid)
+		// distinct ids which an exporter that compares case-insensitively, or that makes ids unique
+		// with a numeric suffix, would confuse (seeded change C16-t), in this document order
+		if fam := []string{"getUsers", "GetUsers", "getUsers_2", "GETUSERS", "getUsers_2_2", "getusers_3", "GetUsers_1"}; g.opFamily == 1 && g.opid <= len(fam) {
+			id = fam[g.opid-1]
+			g.feat("operationId-near-collisions")
+		}
+		nd.kids = append(nd.kids, &node{head: "OperationId " + id})
 	}
 	if g.r.Chance(1, 4) {
 		g.feat("description")
@@ -812,7 +826,14 @@ func (g *gen) newFileName(dir string, depth int) string {
 	if g.r.Chance(1, 2) && depth < 3 {
 		sub = g.r.Pick([]string{"inc", "mixins", "d"}) + "/"
 	}
-	return path.Join(dir, sub+fmt.Sprintf("f%d.jst", g.nfile))
+	name := fmt.Sprintf("f%d.jst", g.nfile)
+	if g.r.Chance(1, 8) {
+		// characters a shell, an environment expansion or a glob would treat specially: to the
+		// builder they are bytes of a file name (seeded change C06-t)
+		name = fmt.Sprintf(g.r.Pick([]string{"f%d-$HOME.jst", "${USER}f%d.jst", "$f%d.jst", "~f%d.jst", "f%d-$$.jst", "f%d[1]*.jst", "%%TEMP%%f%d.jst"}), g.nfile)
+		g.feat("include-name-with-shell-characters")
+	}
+	return path.Join(dir, sub+name)
 }
 
 func relParam(fromFile, target string) string {
